@@ -40,7 +40,7 @@ ASSUMPTIONS = [
 ]
 
 FHMODES = ["fit_rel_list", "pred_rel_list", "pred_rel_array", "pred_rel_fh", "pred_abs_fh",
-           "fit_rel_fh", "pred_rel_uindex", "pred_abs_ufh", "fit_rel_uindex"]
+           "fit_rel_fh", "pred_rel_uindex", "pred_abs_ufh", "fit_rel_uindex", "fit_abs_far"]
 IDX = [("range", 0), ("range", 5), ("index", 0), ("index", 5)]
 
 
@@ -59,6 +59,8 @@ def gen_cases(tier, seed):
             for mode in FHMODES:
                 if fmenu.needs_fh_at_fit(spec) and not mode.startswith("fit"):
                     continue
+                if mode == "fit_abs_far" and (fmenu.needs_fh_at_fit(spec) or slow):
+                    continue  # horizon-dependent reductions train on the steps of the fit cutoff
                 if slow and tier == "quick" and mode in ("pred_rel_array", "fit_rel_fh",
                                                         "fit_rel_uindex", "pred_abs_ufh"):
                     continue
@@ -112,12 +114,22 @@ def _histories(depth, sizes):
                 yield h
 
 
+FAR = 7  # offset of the absolute horizon given at fit: still out-of-sample after two updates of 3
+
+
 def _run(spec, y_full, n0, steps, mode, hist, res, tag):
     """execute one history on a fresh object; returns list of observations or None"""
+    from sktime.forecasting.base import ForecastingHorizon
+
     f = fmenu.build(spec)
     y0 = y_full.iloc[:n0]
     at_fit = mode.startswith("fit")
     fhv = _mk_fh(steps, mode, y0.index[-1]) if at_fit else None
+    abs_labels = None
+    if mode == "fit_abs_far":
+        # absolute time points requested once, at fit; they must label every later forecast
+        abs_labels = [int(y0.index[-1]) + FAR + s for s in steps]
+        fhv = ForecastingHorizon(np.array(abs_labels), is_relative=False)
     o = call(lambda: f.fit(y0.copy(), fh=fhv))
     res.transitions += 1
     if not o.ok:
@@ -160,9 +172,7 @@ def _run(spec, y_full, n0, steps, mode, hist, res, tag):
                 res.violate("%s:predict:raises" % tag, "predict raised", observed=o.brief())
                 return None
             p = o.value
-            exp_idx = [int(last_label) + s for s in steps]
-            if at_fit and mode == "fit_abs":
-                pass
+            exp_idx = [int(last_label) + s for s in steps] if abs_labels is None else abs_labels
             if not isinstance(p, pd.Series) or [int(v) for v in p.index] != exp_idx:
                 res.violate("%s:index" % tag, "forecast index != cutoff + requested steps",
                             expected=exp_idx, observed=list(getattr(p, "index", [])))
@@ -198,6 +208,10 @@ def run_case(case):
             break
         for oa, ob in zip(a, b):
             if oa[0] == "P":
+                if mode == "fit_abs_far":
+                    # the twin's absolute labels are shifted with its index; values may differ in
+                    # nothing (same steps from the same relative cutoff)
+                    pass
                 if [i + 7 for i in oa[1]] != ob[1] or not close(oa[2], ob[2], rtol=1e-7, atol=1e-9):
                     res.violate("%s:shift" % tag, "shifting the time index by +7 changes the "
                                 "forecast values or does not shift the forecast index by 7",
